@@ -109,18 +109,19 @@ func sourcesCase(c *explore.Ctx, s *explore.SubStats, side *gramSide, in sources
 func sourcesSub(c *explore.Ctx, side *gramSide, g *refgrammar.Grammar) {
 	n := c.Pick(3, 4)
 	_ = n
-	s := c.Sub("sources", fmt.Sprintf("every ordered pair (and, thorough, triple) of type-system sentences of ≤ %d tokens that contain a type definition or extension, as separate sources, × every assignment of the built-in flag", n),
+	s := c.Sub("sources", fmt.Sprintf("every ordered pair (and, thorough, triple of the first 40) of type-system sentences over the core alphabet (all of ≤ %d tokens, plus the schema definitions / extensions one token longer), as separate sources, × every assignment of the built-in flag", n),
 		"ParseSchemas succeeds, its tree equals the derivation tree of the concatenated token sequence (definitions in source order), and every definition/extension carries the BuiltIn flag of its own source", "every case")
 	if s == nil {
 		return
 	}
 	t0 := time.Now()
 	var texts []string
-	for _, sent := range language(side, g, "full", side.alpha, n, false) {
-		if strings.Contains(sent.Tree, "defs[]") && strings.Contains(sent.Tree, "exts[]") {
-			continue
+	for _, sent := range language(side, g, "core", side.core, n+1, false) {
+		// all sentences of ≤ n tokens, and the longer ones that are made of schema definitions /
+		// extensions only (the document parts that are easiest to lose in a merge)
+		if len(sent.Classes) <= n || (strings.Contains(sent.Tree, "defs[]") && strings.Contains(sent.Tree, "exts[]") && strings.Contains(sent.Tree, "directives[]")) {
+			texts = append(texts, renderClasses(side.core, sent.Classes, " "))
 		}
-		texts = append(texts, renderClasses(side.alpha, sent.Classes, " "))
 	}
 	if c.Shard == 0 {
 		s.Extra["sentences"] = float64(len(texts))
